@@ -225,7 +225,14 @@ def d3_read_sync(ctx):
               "read_sync_digital does not decode self._raw[_slice, <sync indices>]", key="digital")
 
 
+def dS_shared(ctx):
+    from sa.common import rule_no_shared_mutation
+    rule_no_shared_mutation(ctx, "DS", ['spikeglx.split_sync', 'spikeglx.Reader.read_sync', 'spikeglx.Reader.read_sync_digital', 'spikeglx.Reader.read_sync_analog', 'ibldsp.utils.fronts', 'ibldsp.utils.rises', 'ibldsp.utils.falls'],
+                            'sync decoded by a later call depends on an earlier call')
+
+
 def run(ctx):
+    ctx.run(dS_shared)
     ctx.run(d1_bits)
     ctx.run(d2_edges)
     ctx.run(d3_read_sync)
